@@ -91,6 +91,11 @@ func (u *UniAttribute) Decode(is *codec.Reader) error {
 	if err != nil {
 		return err
 	}
+	// every entry takes at least one byte: a count larger than what remains is malformed (and
+	// would otherwise spin through up to 2^31 empty iterations)
+	if err = is.CheckLength(length); err != nil {
+		return err
+	}
 
 	for i, e := int32(0), length; i < e; i++ {
 		var k string
